@@ -98,7 +98,7 @@ func tyName(x interface{}) string {
 var tySample = map[string]interface{}{
 	"none": nil, "int": int(0), "i64": int64(0), "i32": int32(0), "i16": int16(0), "i8": int8(0),
 	"uint": uint(0), "u64": uint64(0), "u32": uint32(0), "u16": uint16(0), "u8": uint8(0),
-	"f64": float64(0), "f32": float32(0), "bool": true, "str": "", "bytes": []byte{},
+	"f64": float64(0), "f32": float32(0), "bool": true, "str": "", "bytes": make([]byte, 0, 64), // a sample with room behind it: only its TYPE counts
 	"time": time.Time{}, "num": json.Number(""), "other": struct{ X int }{},
 }
 
